@@ -38,7 +38,7 @@ TWrite == /\ IsEvent("Op")
                 /\ Trace[l].failed = (req.fault = "index")
                 /\ Trace[l].entry = target /\ Trace[l].val = req.index
              \/ /\ Trace[l].op = "WriteFile" /\ Trace[l].attr = "digest" /\ WriteDigest
-                /\ Trace[l].failed = (req.fault = "digest")
+                /\ Trace[l].failed = (req.fault \in {"digest", "digestLate"})
                 /\ Trace[l].entry = target /\ Trace[l].digestOk
 
 TReturn == /\ IsEvent("Return") /\ pc = "idle" /\ req.kind # "idle"
